@@ -51,6 +51,7 @@ def P(pid):
             ('RF-B pass-through arguments keep their role', rf_consts.rule_argument_roles, 40),
             ('RF-B message lists handed down whole', rf_consts.rule_list_integrity, 15),
             ('RF-C octet-string ingredients are hashed whole', rf_hash.rule_whole_ingredients, 9),
+            ('RF-C hash inputs are put together without lossy operations', rf_hash.rule_no_lossy_sinks, 2),
             ('RF-C hash binding (domain, map, e)', lambda c: rf_hash.rule_hash_binding(c, rf_hash.BBS_TABLE, BBS_SCOPE,
                 only_fns=hash_fns('calculate_domain', 'messages_to_scalar', 'map_message_to_scalar_as_hash', 'core_sign', 'hash_to_scalar')), 20),
             ('RF-D verify gates', lambda c: rf_gates.rule_accept_requirements(c, only(T.VERIFY_REQS, T.SIG + 'verify', T.BSIG + 'verify_blind_sign')), 2),
@@ -72,6 +73,7 @@ def P(pid):
             ('RF-B pass-through arguments keep their role', rf_consts.rule_argument_roles, 40),
             ('RF-B message lists handed down whole', rf_consts.rule_list_integrity, 15),
             ('RF-C octet-string ingredients are hashed whole', rf_hash.rule_whole_ingredients, 9),
+            ('RF-C hash inputs are put together without lossy operations', rf_hash.rule_no_lossy_sinks, 2),
             ('RF-C challenge ingredients', lambda c: rf_hash.rule_hash_binding(c, rf_hash.BBS_TABLE, BBS_SCOPE,
                 only_fns=hash_fns('proof_challenge_calculate', 'calculate_domain')), 15),
             ('RF-D proof_verify gates', lambda c: rf_gates.rule_accept_requirements(c, only(T.VERIFY_REQS, T.POK + 'proof_verify')), 4),
@@ -108,6 +110,7 @@ def P(pid):
         R = [
             ('RF-Y failures of fallible operations are never discarded', rf_errors.rule_errors_not_discarded, 60),
             ('RF-B interface constants (all entry points)', rf_consts.rule_interface_constants, 40),
+            ('RF-B pass-through arguments keep their role (an api_id handed on is the caller\'s api_id, also in the public helpers)', rf_consts.rule_argument_roles, 40),
             ('RF-A absent == empty in every function of the layer', rf_consts.rule_option_normalisation_all, 50),
             ('A5 ciphersuite constants', rf_consts.rule_ciphersuite_constants, 30),
             ('RF-C generator seeds', lambda c: rf_hash.rule_hash_binding(c, rf_hash.BBS_TABLE, BBS_SCOPE, only_fns=hash_fns('create_generators')), 10),
@@ -219,6 +222,7 @@ def P(pid):
             ('RF-L limit guards', rf_frame.rule_limit_guards, 3),
             ('A5 constants equal the drafts', rf_consts.rule_ciphersuite_constants, 30),
             ('RF-C octet-string ingredients are hashed whole', rf_hash.rule_whole_ingredients, 9),
+            ('RF-C hash inputs are put together without lossy operations', rf_hash.rule_no_lossy_sinks, 2),
             ('RF-C ingredient sets and length prefixes', lambda c: rf_hash.rule_hash_binding(c, rf_hash.BBS_TABLE, BBS_SCOPE), 60),
             ('RF-C I2OSP widths', rf_hash.rule_i2osp_width, 4),
             ('RF-A absent == empty in every function of the layer', rf_consts.rule_option_normalisation_all, 50),
@@ -337,6 +341,7 @@ def P(pid):
                                'the four Fiat-Shamir hashes contain what they must; each of the 27 integers of a proof is seen by some comparison as itself and not only modulo n (E + n, F + n, shifted E_a_1 / E pairs are refused); the challenges of both sub-proof verifiers hash their whole statement as itself (an honest proof cannot be moved onto E * g^d * h^r). Completeness for in-range values and the soundness bounds are not decided.')
     elif pid == 'C17':
         R = [
+            ('RF-I no member of a proof is a copy of a commitment handed in with its opening', CL.rule_no_copy_of_input_commitment, 3),
             ('RF-I no opening in the serialised proof types', CL.rule_no_opening_serialised, 4),
             ('RF-G2 hidden attributes are always blinded (mask selection)', CL.rule_mask_vectors, 8),
             ('RF-G2 sibling commitments use independent randomness', CL.rule_sibling_randomness, 2),
@@ -372,25 +377,25 @@ ALL = ['C%02d' % i for i in range(1, 20)]
 # positive controls (thorough tier): patches that break the property; the property's own quick check must report each of them.
 # unfix-* = reverse of a `fix:` commit of /repo; seeded/* = changes written by independent sub-agents (see DESIGN.md section 6).
 CONTROLS = {
-    'C01': ['seeded/C01-a/patch.diff', 'seeded/C01-b/patch.diff', 'seeded/C01-c/patch.diff', 'seeded/C01-d/patch.diff', 'seeded/C01-e/patch.diff'],
-    'C02': ['selftest/mutants/unfix-1a8aa8f.patch', 'seeded/C02-a/patch.diff', 'seeded/C04-a/patch.diff', 'seeded/C02-b/patch.diff', 'seeded/C02-c/patch.diff', 'seeded/C02-d/patch.diff', 'seeded/C02-e/patch.diff'],
-    'C03': ['seeded/C03-a/patch.diff', 'seeded/C03-c/patch.diff', 'seeded/C03-d/patch.diff', 'seeded/C03-e/patch.diff'],
+    'C01': ['seeded/C01-a/patch.diff', 'seeded/C01-b/patch.diff', 'seeded/C01-c/patch.diff', 'seeded/C01-d/patch.diff', 'seeded/C01-e/patch.diff', 'seeded/C01-g/patch.diff'],
+    'C02': ['selftest/mutants/unfix-1a8aa8f.patch', 'seeded/C02-a/patch.diff', 'seeded/C04-a/patch.diff', 'seeded/C02-b/patch.diff', 'seeded/C02-c/patch.diff', 'seeded/C02-d/patch.diff', 'seeded/C02-e/patch.diff', 'seeded/C02-g/patch.diff'],
+    'C03': ['seeded/C03-a/patch.diff', 'seeded/C03-c/patch.diff', 'seeded/C03-d/patch.diff', 'seeded/C03-e/patch.diff', 'seeded/C03-g/patch.diff'],
     'C04': ['selftest/mutants/unfix-4e31b69.patch', 'selftest/mutants/unfix-1c8b8b0.patch', 'selftest/mutants/unfix-99e0eb6.patch', 'selftest/mutants/unfix-44a689e.patch', 'seeded/C04-a/patch.diff', 'seeded/C04-b/patch.diff', 'seeded/C04-c/patch.diff', 'seeded/C04-d/patch.diff', 'seeded/C04-f/patch.diff'],
-    'C05': ['seeded/C05-a/patch.diff', 'seeded/C05-b/patch.diff', 'seeded/C05-c/patch.diff', 'seeded/C05-d/patch.diff', 'seeded/C05-e/patch.diff'],
+    'C05': ['seeded/C05-a/patch.diff', 'seeded/C05-b/patch.diff', 'seeded/C05-c/patch.diff', 'seeded/C05-d/patch.diff', 'seeded/C05-e/patch.diff', 'seeded/C05-g/patch.diff'],
     'C06': ['selftest/mutants/unfix-99e0eb6.patch', 'selftest/mutants/unfix-44a689e.patch', 'seeded/C06-a/patch.diff', 'seeded/C06-b/patch.diff', 'seeded/C06-c/patch.diff', 'seeded/C06-d/patch.diff', 'seeded/C06-e/patch.diff', 'seeded/C06-f/patch.diff'],
-    'C07': ['seeded/C07-a/patch.diff', 'seeded/C07-b/patch.diff', 'seeded/C07-c/patch.diff', 'seeded/C07-d/patch.diff', 'seeded/C07-e/patch.diff'],
-    'C08': ['selftest/mutants/unfix-928b770.patch', 'selftest/mutants/unfix-05eab20.patch', 'selftest/mutants/unfix-6597d81.patch', 'seeded/C08-b/patch.diff', 'selftest/mutants/work-unbounded-L.patch', 'seeded/C08-d/patch.diff', 'seeded/C08-e/patch.diff'],
+    'C07': ['seeded/C07-a/patch.diff', 'seeded/C07-b/patch.diff', 'seeded/C07-c/patch.diff', 'seeded/C07-d/patch.diff', 'seeded/C07-e/patch.diff', 'seeded/C07-g/patch.diff'],
+    'C08': ['selftest/mutants/unfix-928b770.patch', 'selftest/mutants/unfix-05eab20.patch', 'selftest/mutants/unfix-6597d81.patch', 'seeded/C08-b/patch.diff', 'selftest/mutants/work-unbounded-L.patch', 'seeded/C08-d/patch.diff', 'seeded/C08-e/patch.diff', 'seeded/C08-g/patch.diff'],
     'C09': ['selftest/mutants/unfix-928b770.patch', 'selftest/mutants/unfix-4e31b69.patch', 'selftest/mutants/unfix-e3aa4b0.patch', 'selftest/mutants/unfix-1a8aa8f.patch', 'selftest/mutants/unfix-07e52dd.patch', 'selftest/mutants/unfix-dc0c0a4.patch', 'seeded/C09-a/patch.diff', 'seeded/C09-b/patch.diff', 'seeded/C09-c/patch.diff', 'seeded/C09-d/patch.diff', 'seeded/C09-e/patch.diff', 'seeded/C09-f/patch.diff'],
     'C10': ['selftest/mutants/unfix-1a8aa8f.patch', 'selftest/mutants/unfix-e3aa4b0.patch', 'seeded/C10-a/patch.diff', 'seeded/C10-b/patch.diff', 'seeded/C10-c/patch.diff', 'seeded/C10-d/patch.diff', 'seeded/C10-e/patch.diff', 'seeded/C10-f/patch.diff'],
-    'C11': ['seeded/C11-a/patch.diff', 'seeded/C11-b/patch.diff', 'seeded/C11-c/patch.diff', 'seeded/C11-d/patch.diff', 'seeded/C11-e/patch.diff'],
-    'C12': ['selftest/mutants/unfix-ae1f505.patch', 'seeded/C12-a/patch.diff', 'seeded/C12-b/patch.diff', 'seeded/C12-c/patch.diff', 'seeded/C12-d/patch.diff', 'seeded/C12-e/patch.diff'],
+    'C11': ['seeded/C11-a/patch.diff', 'seeded/C11-b/patch.diff', 'seeded/C11-c/patch.diff', 'seeded/C11-d/patch.diff', 'seeded/C11-e/patch.diff', 'seeded/C11-g/patch.diff'],
+    'C12': ['selftest/mutants/unfix-ae1f505.patch', 'seeded/C12-a/patch.diff', 'seeded/C12-b/patch.diff', 'seeded/C12-c/patch.diff', 'seeded/C12-d/patch.diff', 'seeded/C12-e/patch.diff', 'seeded/C12-g/patch.diff'],
     'C13': ['selftest/mutants/unfix-4faa0f0.patch', 'selftest/mutants/unfix-d5d2c0e.patch', 'selftest/mutants/unfix-d882cd3.patch', 'seeded/C13-a/patch.diff', 'seeded/C13-b/patch.diff', 'seeded/C13-c/patch.diff', 'seeded/C13-d/patch.diff', 'seeded/C13-e/patch.diff', 'seeded/C13-f/patch.diff'],
     'C14': ['selftest/mutants/unfix-2e6b8d5.patch', 'selftest/mutants/unfix-2d01ace.patch', 'selftest/mutants/unfix-7b76bb5.patch', 'selftest/mutants/unfix-16c9f60.patch', 'seeded/C14-b/patch.diff', 'seeded/C14-d/patch.diff', 'seeded/C14-e/patch.diff', 'seeded/C14-f/patch.diff'],
     'C15': ['selftest/mutants/unfix-2d01ace.patch', 'selftest/mutants/unfix-85ebe8e.patch', 'selftest/mutants/unfix-164e21b.patch', 'seeded/C15-a/patch.diff', 'seeded/C15-b/patch.diff', 'seeded/C15-c/patch.diff', 'seeded/C15-d/patch.diff', 'seeded/C15-e/patch.diff', 'seeded/C15-f/patch.diff'],
     'C16': ['selftest/mutants/unfix-b52ed69.patch', 'selftest/mutants/unfix-2d81d25.patch', 'selftest/mutants/unfix-96df85f.patch', 'seeded/C16-a/patch.diff', 'seeded/C16-b/patch.diff', 'seeded/C16-c/patch.diff', 'seeded/C16-d/patch.diff', 'seeded/C16-f/patch.diff'],
-    'C17': ['seeded/C17-a/patch.diff', 'seeded/C17-b/patch.diff', 'seeded/C17-c/patch.diff', 'seeded/C17-d/patch.diff', 'seeded/C17-e/patch.diff'],
-    'C18': ['seeded/C18-a/patch.diff', 'seeded/C18-b/patch.diff', 'seeded/C18-c/patch.diff', 'seeded/C18-d/patch.diff', 'seeded/C18-e/patch.diff'],
-    'C19': ['seeded/C19-a/patch.diff', 'seeded/C19-b/patch.diff', 'seeded/C19-c/patch.diff', 'seeded/C19-d/patch.diff', 'seeded/C19-e/patch.diff'],
+    'C17': ['seeded/C17-a/patch.diff', 'seeded/C17-b/patch.diff', 'seeded/C17-c/patch.diff', 'seeded/C17-d/patch.diff', 'seeded/C17-e/patch.diff', 'seeded/C17-g/patch.diff'],
+    'C18': ['seeded/C18-a/patch.diff', 'seeded/C18-b/patch.diff', 'seeded/C18-c/patch.diff', 'seeded/C18-d/patch.diff', 'seeded/C18-e/patch.diff', 'seeded/C18-g/patch.diff'],
+    'C19': ['seeded/C19-a/patch.diff', 'seeded/C19-b/patch.diff', 'seeded/C19-c/patch.diff', 'seeded/C19-d/patch.diff', 'seeded/C19-e/patch.diff', 'seeded/C19-g/patch.diff'],
 }
 
 # negative controls (thorough tier): behaviour-preserving refactorings; the property's quick check must stay silent on each of them.
@@ -452,7 +457,7 @@ for _g, _ps in _R10.items():
 # under another key (a response computed in a shared helper), so it is a negative control for the properties without that finding only.
 _R12 = {'R12N1': ['C01', 'C02', 'C08', 'C09', 'C10', 'C11', 'C12'], 'R12N2': ['C03', 'C04', 'C05', 'C07', 'C08', 'C10'],
         'R12N3': ['C05', 'C06', 'C07', 'C08', 'C09', 'C11'], 'R12N4': ['C01', 'C02', 'C03', 'C07', 'C08', 'C10', 'C11'],
-        'R12N5': ['C14', 'C15', 'C17', 'C19'], 'R12N6': ['C13', 'C14', 'C15', 'C17', 'C18', 'C19'], 'R12N8': ['C13', 'C17', 'C18']}
+        'R12N5': ['C14', 'C15', 'C17', 'C19'], 'R12N6': ['C13', 'C14', 'C15', 'C17', 'C18', 'C19'], 'R12N7': ['C14', 'C15', 'C16', 'C17', 'C19'], 'R12N8': ['C13', 'C17', 'C18']}
 _R12_EXCEPT = {('R12N5', 2): ('C17', 'C19')}
 for _g, _ps in _R12.items():
     for _j in (1, 2, 3, 4):
